@@ -19,12 +19,12 @@
 static std::string mfmt(int r, int c, long long k) { return rstr(dec(r, c, k)); }
 
 #if LIBMC15_PART == 4
-template <class T> static void bfs_unit(int N, int lvl, int wlimit) {
-  std::string name = std::string("bfs.") + Tr<T>::name() + "." + std::to_string(N) + "." + std::to_string(lvl) + "." + std::to_string(wlimit);
+template <class T> static void bfs_unit(int N, int lvl, int wlimit, bool inpl = false, int wmax = 1) {
+  std::string name = std::string("bfs.") + Tr<T>::name() + "." + std::to_string(N) + "." + std::to_string(lvl) + "." + std::to_string(wlimit) + (inpl ? "i" + std::to_string(wmax) : std::string());
   Unit u; u.name = name; u.total = 1; u.maxcrash = 1;
-  u.f = [=](long long) { Bfs<T> b; b.N = N; b.lvl = lvl; b.wlimit = wlimit; b.uname = name; b.run(); };
-  u.fmt = [=](long long) { return std::string("search over ") + std::to_string(N) + " " + Tr<T>::name() + " objects (crash inside the search: rerun with --nofork x to see the operation)"; };
-  u.replay_extra = [=](const std::string& hist) { Bfs<T> b; b.N = N; b.lvl = lvl; b.wlimit = wlimit; b.uname = name; std::string k = b.replay(hist, true); printf("# final state %s\n", k.c_str()); };
+  u.f = [=](long long) { Bfs<T> b; b.N = N; b.lvl = lvl; b.wlimit = wlimit; b.inpl = inpl; b.wmax = wmax; b.uname = name; b.run(); };
+  u.fmt = [=](long long) { return g_bfs_hist ? "#" + g_bfs_hist() + " :: aborted inside the last operation of this history of " + std::to_string(N) + " " + Tr<T>::name() + " objects" : std::string("search over ") + std::to_string(N) + " " + Tr<T>::name() + " objects"; };
+  u.replay_extra = [=](const std::string& hist) { Bfs<T> b; b.N = N; b.lvl = lvl; b.wlimit = wlimit; b.inpl = inpl; b.wmax = wmax; b.uname = name; std::string k = b.replay(hist, true); printf("# final state %s\n", k.c_str()); };
   run_unit(u);
 }
 #endif
@@ -37,6 +37,13 @@ int main(int argc, char** argv) {
   // ---- copy semantics: one single-process search per unit, the largest first
   if (th) bfs_unit<Mat>(3, 1, 9);
   bfs_unit<Mat>(3, 0, 9);
+  // histories with in-place / state-caching operations (invert, inv, transpose, cholDec, solve, triDiag)
+  bfs_unit<Mat>(2, th ? 4 : 2, 9, true, 1);
+  bfs_unit<Mat>(3, 3, 9, true, 1);
+  bfs_unit<SymMat>(2, 0, 9, true, 2);
+  bfs_unit<CovMat>(2, 0, 9, true, 2);
+  bfs_unit<BandMat>(2, 0, 9, true, 2);
+  bfs_unit<BandMat>(2, 3, 3, true, 1);
   if (th) { bfs_unit<CovMat>(3, 1, 2); bfs_unit<BandMat>(3, 1, 2); bfs_unit<SymMat>(3, 1, 3); }
   bfs_unit<CovMat>(2, 1, 9);
   bfs_unit<BandMat>(2, 1, 9);
